@@ -61,6 +61,9 @@ FAULTS = [
     # --- structure elements, subranges, enumerations
     ("P0003", "duplicate structure element", "first and last element", "    c : COLOR := GREEN;\n  END_STRUCT;", "    X : COLOR := GREEN;\n  END_STRUCT;"),
     ("P0003", "duplicate structure element", "adjacent elements", "    y : INT;\n", "    x : INT;\n"),
+    ("P0003", "duplicate structure element", "two spellings of one name with another element between them (Y, c, y)", "    y : INT;\n    c : COLOR := GREEN;", "    Y : INT;\n    c : COLOR := GREEN;\n    y : REAL;"),
+    ("P0003", "duplicate structure element", "two spellings of one name with another element between them (x, Y2, X)", "    y : INT;\n    c : COLOR := GREEN;", "    Y2 : INT;\n    X : COLOR := GREEN;"),
+    ("P0005", "duplicate enumeration value", "two spellings of one value with another value between them", "COLOR : (RED, GREEN, BLUE) := RED;", "COLOR : (Red, GREEN, BLUE, RED) := GREEN;"),
     ("P0004", "subrange minimum not below maximum", "type declaration, min > max", "RANGE1 : INT(-5..5);", "RANGE1 : INT(5..-5);"),
     ("P0004", "subrange minimum not below maximum", "type declaration, min = max", "RANGE1 : INT(-5..5);", "RANGE1 : INT(5..5);"),
     ("P0005", "duplicate enumeration value", "first and last value", "COLOR : (RED, GREEN, BLUE) := RED;", "COLOR : (RED, GREEN, BLUE, red) := RED;"),
